@@ -116,6 +116,28 @@ func run(r *ev.Run) {
 			}
 		}()
 	}
+	// writers concurrent with Flush on one write buffer (conc.go)
+	nConc := r.Pick(4, 24)
+	for _, base := range bases {
+		for round := 0; round < nConc; round++ {
+			base, round := base, round
+			id := fmt.Sprintf("concflush/buffer-%s#%d;", base, round)
+			if !r.Only(id) || flushHangs[base] {
+				continue
+			}
+			wg.Add(1)
+			go func() {
+				defer wg.Done()
+				sem <- struct{}{}
+				defer func() { <-sem }()
+				t0 := time.Now()
+				concFlushWatch(r, root, id, base, round)
+				if debugTiming {
+					fmt.Fprintf(os.Stderr, "TIMING %s %v\n", id, time.Since(t0))
+				}
+			}()
+		}
+	}
 	wg.Wait()
 	if debugTiming {
 		dumpTimings()
@@ -148,6 +170,13 @@ func run(r *ev.Run) {
 	r.Require("size_limit_classes", sizeLimitClassNames()...)
 	r.Require("find_kinds", "both-empty", "empty-start", "empty-end", "start>end", "start==end", "range", "partial-iteration", "bound-not-a-key")
 	r.Require("batch_features", "repeated-key", "set-then-delete", "delete-then-set", "mixed", "oversize-inside")
+	r.Require("op_noop_batch", names...)
+	for _, kind := range []string{"no-mutations", "only-oversize-sets", "only-deletes-of-absent-keys"} {
+		r.Require("noop_batch_kinds", kind)
+		r.Require("noop_batch_after_plain_sets/"+kind, names...)
+	}
+	r.Require("conc_flush_ran", "buffer-memory", "buffer-leveldb", "buffer-kv", "buffer-sqlite")
+	r.Require("conc_flush_shapes", "explicit-only/many-keys", "explicit-only/hot-keys", "auto-flush-4096", "auto-flush-64")
 	r.Require("torn_subcheck_ran", names...)
 	r.Require("torn_reads_overlapping_a_commit", judged...)
 	r.Require("failed_batch_forced", "leveldb", "kv", "sqlite")
